@@ -53,6 +53,9 @@ type policyConn struct {
 
 func (c *policyConn) Write(p []byte) (int, error) {
 	c.writes++
+	if len(p) == 0 {
+		return 0, nil // writing nothing succeeds and tells nothing about the connection
+	}
 	if len(c.policy) == 0 {
 		c.log = append(c.log, p...)
 		return len(p), nil
